@@ -41,6 +41,14 @@ func Funcs() map[string]any {
 			}
 			return n / 2, nil
 		},
+		// reverses the bytes it was handed, in place: the slice is the function's own copy of the
+		// argument, never the Program's constant or the caller's variable
+		"nat_rev": func(b []byte) string {
+			for i, j := 0, len(b)-1; i < j; i, j = i+1, j-1 {
+				b[i], b[j] = b[j], b[i]
+			}
+			return string(b)
+		},
 		"a_first": func() string { return "first" }, // sorts before most AWK function names
 		"zz_last": func(x float64) float64 { return -x },
 	}
@@ -392,7 +400,7 @@ func genChain(rng *rand.Rand, long bool) string {
 // genNative: native functions next to AWK functions (their index spaces overlap), AWK functions
 // overriding a native name, and the native-specific errors.
 func genNative(rng *rand.Rand) string {
-	natives := []string{"nat_add(1, 2)", `nat_up("x")`, `nat_len("abc")`, `nat_join("a", "b", "c")`, "nat_not(0)", "nat_half(9)", "a_first()", "zz_last(3)", "nat_join()"}
+	natives := []string{"nat_add(1, 2)", `nat_up("x")`, `nat_len("abc")`, `nat_join("a", "b", "c")`, "nat_not(0)", "nat_half(9)", "a_first()", "zz_last(3)", "nat_join()", `nat_rev("abcdef")`, `nat_rev("xyz123") nat_rev("xyz123")`}
 	k := rng.Intn(5)
 	names := funcNames(rng, k)
 	var sb strings.Builder
